@@ -116,6 +116,7 @@ def apx(name, init, ts, final, qcap_=1, **kw):
     kw.setdefault('opts', {'loop:keep_writing': '4'}); kw.setdefault('tiers', ('thorough',)); kw.setdefault('timeout', 5400)
     S('ap_' + name, 'logging/ap.cpp', {'assert': 'C20'}, defs=['VF_QCAP=%d' % qcap_, 'VF_INIT=' + init] + ['VF_T%d=%s' % (i, t) for i, t in enumerate(ts)] + ['VF_FINAL=' + final], extra=APX, **kw)
 S('ap_seq_sizes', 'logging/ap_seq.cpp', {'assert': 'C20'}, extra=APX, models=['sc'], bound=12)
+S('ap_writev_iov_max', 'logging/ap_writev.cpp', {'assert': 'C20'}, extra=APX, models=['sc'], bound=1100)
 # the queue hand-over of write() alone: two logging threads, nobody drains; both entries must be queued, intact
 apx('two_writes_enqueue', 'ent[0] = make("ab", 2); ent[1] = make("cd", 2); writer_done = 1', ['WRITE(0)', 'WRITE(1)'],
     '{ vf_check(ap->_queue.size()==2, 3); uint64_t m = 0; for (int i = 0; i < 2; ++i) { auto& it = ap->_queue._slots.value(i); vf_check(it.file == &fo && it.entry.size == 2, 3); m |= (it.entry.pages[0] == ent[0].pages[0] ? 1 : 0) | (it.entry.pages[0] == ent[1].pages[0] ? 2 : 0); } vf_check(m == 3, 3); } nfree = nalloc',
@@ -211,6 +212,10 @@ fx('mismatch_no_suspend', 'fx->value() = 5; make_waiter(0,0); make_waiter(1,5)',
 fx('wake_one_vs_cancel', 'make_waiter(0,0); make_waiter(1,0)', ['CANCEL(1)', 'WAKE_ONE()'],
    'vf_check(resumed[1]==1 && resumed[0]<=1, 2); vf_check(ret[1]==1 && resumed[0]+resumed[1]==2 || (ret[0]==0), 3)')
 fx('wake_all_vs_cancel', 'make_waiter(0,0); make_waiter(1,0)', ['CANCEL(0)', 'WAKE_ALL()'], 'vf_check(resumed[0]==1 && resumed[1]==1, 2); vf_check(ret[0]+ret[1]==2, 2)')
+# after every waiter was resumed (woken or cancelled) the wait list must be empty again: a stale link would hand a recycled
+# wait slot (possibly a waiter of another futex) to the next wake_one / wake_all
+FXEMPTY = '; vf_check(fx->_awaiter_head.next == nullptr, 7)'
+fx('wake_all_vs_cancel_newest_list_empty', 'make_waiter(0,0); make_waiter(1,0)', ['CANCEL(1)', 'WAKE_ALL()'], 'vf_check(resumed[0]==1 && resumed[1]==1, 2)' + FXEMPTY)
 fx('wake_all_vs_new_waiter', 'make_waiter(0,0); make_waiter(1,0)', ['WAKE_ALL()', 'NEW_WAITER(2)'], 'vf_check(resumed[0]==1 && resumed[1]==1 && resumed[2]<=1, 5)')
 fx('value_change_vs_new_waiter', '(void)0', ['NEW_WAITER(0)', 'fx->atomic_value().store(1, std::memory_order_release);WAKE_ALL()'], 'vf_check(suspended[0]==0 || resumed[0]==1, 6); vf_check(resumed[0]<=1, 2)')
 fx('value_change_vs_second_waiter', 'make_waiter(1,0)', ['NEW_WAITER(0)', 'fx->atomic_value().store(1, std::memory_order_release);WAKE_ONE();WAKE_ONE()'], 'vf_check(resumed[1]==1 && (suspended[0]==0 || resumed[0]==1), 6)')
@@ -293,7 +298,15 @@ afd('unless_true', cond=1, unless=1, inject=0)
 afd('on_false_target_arrives', cond=0)
 afd('on_true_two_deps', cond=1, two=1)
 afd('on_false_two_deps', cond=0, two=1)
-afd('unless_false_two_deps', cond=0, unless=1, two=1, tiers=TH)
+
+
+# ----------------------------------------------------------------------------------------------- thorough-tier bounds
+# Loop bound 3 + the tso model was validated (every model finished well inside the time-out on this 16-core machine) for the
+# scenarios below; every other default-bound scenario keeps loop bound 2 in the thorough tier (still adding the tso model),
+# because bound 3 did not finish within 25 minutes per run when the thorough tier was validated.
+B3_VALIDATED = set(['box_stale_never_matches', 'box_stale_vs_recycle', 'box_three_takers', 'box_two_takers', 'ep_create_during_scan', 'ep_handoff', 'ep_nested', 'ep_reader_twice', 'ep_reader_writer', 'ep_released_not_blocking', 'ep_second_slot', 'ep_two_readers', 'ep_unlocked_not_blocking', 'fu_cb_after', 'fu_cb_before', 'fu_latch', 'fu_ready_get', 'fu_set_cb_get', 'fu_two_callbacks', 'fu_two_getters', 'fu_wait_for', 'fu_wait_for_two', 'fu_wait_for_unset', 'fx_mismatch_no_suspend', 'fx_two_wake_one', 'fx_value_change_vs_new_waiter', 'fx_value_change_vs_second_waiter', 'fx_wake_all_vs_cancel', 'fx_wake_all_vs_new_waiter', 'fx_wake_one_basic', 'fx_wake_one_vs_cancel', 'ht_find', 'ht_same_key', 'id_aba', 'id_aba_reuse', 'id_alloc_free_race', 'id_mint_race', 'id_three', 'pa_alloc_free_x2', 'pa_one_thread_cycle', 'rl_basic', 'rl_wrap', 'tp_after_clear', 'tp_batch_across_block_boundary', 'tp_batch_pub', 'tp_pub_close_consume', 'tp_submit_then_stop', 'tp_two_tasks', 'tp_two_workers', 'vec_gc_cooling', 'vec_same_index', 'vec_stable_under_growth'])
+for _s in ALL:
+    if _s['bound'] == {'quick': 2, 'thorough': 3} and _s['name'] not in B3_VALIDATED: _s['bound'] = {'quick': 2, 'thorough': 2}
 
 # ----------------------------------------------------------------------------------------------- manifest texts
 LEVEL_TEXT = {
